@@ -28,38 +28,45 @@ def _cases(kind: str):
                 yield d.name, m["property"].upper(), patch
 
 
+def _one(name, prop, patch, tier):
+    scratch = Path(tempfile.mkdtemp(prefix="vf-selftest-"))
+    wt = scratch / "repo"
+    try:
+        subprocess.check_call(
+            ["git", "-C", REPO, "worktree", "add", "--detach", "--force", str(wt)],
+            stdout=subprocess.DEVNULL, stderr=subprocess.DEVNULL,
+        )
+        # carry over uncommitted working-tree changes of the observed repository
+        diff = subprocess.run(["git", "-C", REPO, "diff", "HEAD"], capture_output=True).stdout
+        if diff.strip():
+            subprocess.run(["git", "-C", str(wt), "apply"], input=diff, check=True)
+        ap = subprocess.run(["git", "-C", str(wt), "apply", str(patch)], capture_output=True, text=True)
+        if ap.returncode != 0:
+            return name, prop, False, f"patch does not apply: {ap.stderr[-300:]}"
+        env = dict(os.environ, VF_REPO=str(wt))
+        proc = subprocess.run([str(ROOT / "vf"), "check", prop, tier], env=env, capture_output=True, text=True)
+        caught = proc.returncode == 1 and "VIOLATION property=" in proc.stdout
+        tail = "" if caught else "rc=%d " % proc.returncode + " | ".join(proc.stdout.strip().splitlines()[-4:])[-600:]
+        return name, prop, caught, tail
+    finally:
+        subprocess.run(["git", "-C", REPO, "worktree", "remove", "--force", str(wt)],
+                       stdout=subprocess.DEVNULL, stderr=subprocess.DEVNULL)
+        shutil.rmtree(scratch, ignore_errors=True)
+
+
 def main(names: list[str], tier: str, kind: str) -> int:
+    from concurrent.futures import ThreadPoolExecutor
+
+    jobs = int(os.environ.get("VF_SELFTEST_JOBS", "1"))
+    todo = [(n, p, f) for n, p, f in _cases(kind)
+            if not names or any(x.lower() in (n.lower(), p.lower()) for x in names)]
     failed = []
-    ran = 0
-    for name, prop, patch in _cases(kind):
-        if names and not any(n.lower() in (name.lower(), prop.lower()) for n in names):
-            continue
-        ran += 1
-        scratch = Path(tempfile.mkdtemp(prefix="vf-selftest-"))
-        try:
-            subprocess.check_call(
-                ["git", "-C", REPO, "worktree", "add", "--detach", "--force", str(scratch / "repo")],
-                stdout=subprocess.DEVNULL, stderr=subprocess.DEVNULL,
-            )
-            wt = scratch / "repo"
-            # carry over uncommitted working-tree changes of the observed repository
-            diff = subprocess.run(["git", "-C", REPO, "diff", "HEAD"], capture_output=True).stdout
-            if diff.strip():
-                subprocess.run(["git", "-C", str(wt), "apply"], input=diff, check=True)
-            subprocess.check_call(["git", "-C", str(wt), "apply", str(patch)])
-            env = dict(os.environ, VF_REPO=str(wt))
-            proc = subprocess.run(
-                [str(ROOT / "vf"), "check", prop, tier], env=env, capture_output=True, text=True
-            )
-            caught = proc.returncode == 1 and "VIOLATION property=" in proc.stdout
-            print(f"[selftest] {name:45s} {prop} -> {'CAUGHT' if caught else 'MISSED rc=%d' % proc.returncode}")
+    with ThreadPoolExecutor(max_workers=max(1, jobs)) as ex:
+        for name, prop, caught, tail in ex.map(lambda t: _one(t[0], t[1], t[2], tier), todo):
+            print(f"[selftest] {name:60s} {prop} -> {'CAUGHT' if caught else 'MISSED'}", flush=True)
             if not caught:
                 failed.append(name)
-                print("    " + "\n    ".join(proc.stdout.strip().splitlines()[-6:]))
-        finally:
-            subprocess.run(["git", "-C", REPO, "worktree", "remove", "--force", str(scratch / "repo")],
-                           stdout=subprocess.DEVNULL, stderr=subprocess.DEVNULL)
-            shutil.rmtree(scratch, ignore_errors=True)
-            subprocess.run(["git", "-C", REPO, "worktree", "prune"])
-    print(f"[selftest] ran={ran} missed={len(failed)} {failed}")
+                print("    " + tail, flush=True)
+    subprocess.run(["git", "-C", REPO, "worktree", "prune"])
+    print(f"[selftest] ran={len(todo)} missed={len(failed)} {failed}")
     return 1 if failed else 0
